@@ -208,7 +208,12 @@ func TestC20_Req(t *testing.T) {
 		if os.Getenv("T6_DEBUG_PANICS") != "" {
 			dom += fmt.Sprintf(" nilElem=%v", hasNilElement(c.Req, c.Notifs))
 		}
-		judge(rt, e.rec, dom, o, c.String, func(id string) bool { return triggerInMessages(id, c.Req, c.Notifs) })
+		judge(rt, e.rec, dom, o, c.String, func(id string) bool {
+			if id == F81 {
+				return c.Opts&4 != 0 && originClash(c.Req, c.Notifs)
+			}
+			return triggerInMessages(id, c.Req, c.Notifs)
+		})
 	})
 	e.health(t, "req", 25)
 }
